@@ -217,3 +217,4 @@ def _mk(rule):
 
 lemmas.register("C17.R1", _mk("C17.R1"))
 lemmas.register("C17.R2", _mk("C17.R2"))
+lemmas.register("C17.R3", _mk("C17.R3"))
